@@ -31,6 +31,9 @@ def corpus():
         "c17 k_life mode=hist cbe=fs ops=fc:a:x1|fc:b:x2|fu:a:x3|ff:1|fm:b:1|fx:a|fc:c:x4@1|fk:1",
         "c17 k_life_db mode=hist cbe=db ops=fc:a:x1|fu:a:x3|ff:1|fm:a:1|fk:1",
         "c17 k_same_content mode=hist cbe=fs ops=fc:a:x1|fc:b:x1|fx:a|fu:b:x1",
+        # two devices of one account + the server, file transfers running (what the property says about synced devices)
+        "c17 k_net_move_delete mode=net ops=fc:a:x1|s1|ff:1|fm:a:1|s1|fx:a|s1",
+        "c17 k_net_replace_folder mode=net ops=ff:1|fc:a:x1@1|fc:b:x2|s1|fu:a:x3|s1|fk:1|s1",
         "c17 k_upload_fs mode=upload sbe=fs bodies=correct,altered,truncated,empty,extended,other,correct",
         "c17 k_upload_db mode=upload sbe=db bodies=correct,altered,truncated,empty,extended,other",
     ]
@@ -61,6 +64,13 @@ def gen_cases(rng, tier):
             elif len(folders) > 1:
                 f = rng.choice(folders[1:]); ops.append("fk:%s" % f); folders.remove(f)
         out.append("c17 g%d mode=hist cbe=%s ops=%s" % (j, "db" if j % 3 == 1 else "fs", "|".join(ops)))
+        # the same history on device 0 of a two-device network account, device 1 syncing now and then
+        if j < (2 if tier == "quick" else 12):
+            nops = []
+            for o in ops:
+                nops.append(o)
+                if rng.random() < 0.4: nops.append("s1")
+            out.append("c17 n%d mode=net ops=%s" % (j, "|".join(nops + ["s1"])))
     return out
 
 
@@ -112,6 +122,29 @@ def oracle(case, obs):
                 fails.append({"oracle": "stored_blob_not_its_hash", "body": u["body"], "detail": "the file stored under the name does not hash to it"})
             if u.get("leftovers"):
                 fails.append({"oracle": "partial_file_left", "body": u["body"], "detail": "after the attempt the secret's directory holds %s" % u.get("leftovers")})
+        return fails
+    if kv.get("mode") == "net":
+        ops = {}
+        seen = 0
+        for o in obs:
+            t = o.split()
+            if len(t) >= 2 and t[0].isdigit() and t[1].startswith("op="):
+                ops[int(t[0])] = t[1][3:]
+            if len(t) >= 4 and t[0].isdigit() and t[1] == "net":
+                seen += 1
+                n, who = int(t[0]), t[2]
+                w = dict(x.split("=", 1) for x in t[3:] if "=" in x)
+                disk = set(x for x in w.get("disk", "").split(",") if x); canon = set(x for x in w.get("canon", "").split(",") if x)
+                # device 1 is compared once it has synced (its transfers settled); device 0 and the server after every step
+                if who == "D1" and ops.get(n) != "s1": continue
+                if disk - canon:
+                    fails.append({"oracle": "net_blobs_eq_log", "who": who, "kind": "left_behind",
+                                  "detail": "step %d (%s) %s: blobs %s on disk are not named by the replay of its file log %s" % (n, ops.get(n), who, sorted(disk - canon), sorted(canon))})
+                if canon - disk:
+                    fails.append({"oracle": "net_blobs_eq_log", "who": who, "kind": "missing",
+                                  "detail": "step %d (%s) %s: files %s named by the replay of its file log are not on disk" % (n, ops.get(n), who, sorted(canon - disk))})
+        if not seen:
+            fails.append({"oracle": "no_result", "detail": "no observation: %s" % [o for o in obs if "setup" in o][:2]})
         return fails
     steps = parse_hist(obs)
     for n in sorted(steps):
@@ -207,6 +240,8 @@ def shrink(case):
     cid, kv = fields(case)
     if kv.get("mode") == "upload": return []
     ops = [x for x in kv.get("ops", "").split("|") if x]
+    if kv.get("mode") == "net":
+        return ["c17 s mode=net ops=%s" % "|".join(ops[:i] + ops[i + 1:]) for i in range(len(ops)) if len(ops) > 1]
     return ["c17 s mode=hist cbe=%s ops=%s" % (kv.get("cbe", "fs"), "|".join(ops[:i] + ops[i + 1:])) for i in range(len(ops))]
 
 
